@@ -204,7 +204,9 @@ Definition css_class (keys : list text) (t : task) : scalar :=
 
 Definition num_positive (n : num) : bool := 0 <? n_num n.
 
-(* which branch of the progress computation is taken *)
+(* which branch of the progress computation is taken.  A scheduler always leaves a number in
+   estimate (0 for milestones, the roll-up for summaries); with estimate None and an end in the future
+   the implementation raises TypeError - such hand-made WBSs are outside the domain (RSpec.task_ok) *)
 Inductive prog_kind := ProgOne | ProgFloat | ProgZero.
 Definition progress_kind (clock : Z) (t : task) : prog_kind :=
   if t_end t <? clock then ProgOne
@@ -315,3 +317,12 @@ Definition json_doc (clock : Z) (w : wbs) : jdoc :=
 (* json.dumps(..., ensure_ascii=False, indent=2).replace('<', '\\u003c') *)
 Definition render_json (clock : Z) (w : wbs) : text :=
   replace_lt (print_doc esc_json1 (json_doc clock w)).
+
+(* ================= the documents ============================================================== *)
+(* Template.substitute writes the texts between the literal parts of the template (gen/Consts.v has the
+   literal right before and right after the placeholder of the source / the data) *)
+Definition mermaid_embed (before after src : text) : text := before ++ escape_html src ++ after.
+Definition dhtmlx_embed (before after data : text) : text := before ++ data ++ after.
+
+(* _repr_html_: '<iframe srcdoc="{html}" ...>'.format(html=escape(to_html())) *)
+Definition repr_html (pre post doc : text) : text := pre ++ escape_html doc ++ post.
